@@ -133,8 +133,47 @@ def on_probe(p, r, exc, acc):
         acc.sample(dict(r, shown=got))
 
 
+TB_POSITIONS = ["expression", "code-block", "control-line", "def-body", "call-body"]
+TB_SOURCES = ["string", "string-with-uri", "file", "lookup", "module-file", "module-file-reload", "module-directory-through-symlink", "lookup-through-symlink"]
+
+
+def h_tbprobe(p):
+    return dict(tb_position=TB_POSITIONS[p.choose(len(TB_POSITIONS), "position")], source=TB_SOURCES[p.choose(len(TB_SOURCES), "construction_path")],
+                lead=[0, 3][p.choose(2, "leading_lines")])
+
+
+def on_tbprobe(p, r, exc, acc):
+    if exc is not None:
+        acc.candidate(kind="harness-exception", input=None, detail=repr(exc)[:200])
+        return
+    got, want = realproc.call("traceback_probe", r["tb_position"], r["source"], r["lead"])
+    acc.replayed += 1
+    acc.tags["asserted"] += 1
+    acc.vcs += 1
+    if tuple(got) != tuple(want):
+        acc.candidate(kind="template-frame-on-construction-path", input=dict(r), detail="reported %r, the raise is at %r" % (got, want))
+    else:
+        acc.good("template-frame-on-construction-path", dict(r))
+    if len(acc.samples) < 8:
+        acc.sample(dict(r, reported=got))
+
+
 def make_replay(c):
     i = c["input"] or {}
+    if "tb_position" in i:
+        body = """
+sys.path.insert(0, "/verif")
+CASE = __CASE__
+from props.realops import traceback_probe, _TB_POS
+print("\\n".join(_TB_POS[CASE["tb_position"]][0]))
+got, want = traceback_probe(CASE["tb_position"], CASE["source"], CASE["lead"])
+print("construction path:", CASE["source"], " leading lines:", CASE["lead"])
+print("RichTraceback's template frame (own file?, line, source line):", got, " expected:", want)
+bad = None if tuple(got) == tuple(want) else "the template frame is not reported with the template's file, line and source line"
+print("VIOLATED: " + bad if bad else "HOLDS")
+sys.exit(1 if bad else 0)
+""".replace("__CASE__", repr(i))
+        return (c["kind"], body, repr(sorted(i.items(), key=str)))
     body = """
 sys.path.insert(0, "/verif")
 import warnings
@@ -203,9 +242,14 @@ def run(check, tier, cands):
     jobs = [("C12-warn-locate", h_locate, on_locate, "warning display hooks with a symbolic warning line over a symbolic line map", dict(keys=KEYS), ("asserted",)),
             ("C12-warn-paths", h_probe, on_probe, "warning-triggering construct x construction path x filter action (real compilation)",
              dict(positions=POSITIONS, paths=SOURCES, actions=ACTIONS), ("asserted",))]
+    jobs.append(("C12-tb-paths", h_tbprobe, on_tbprobe, "raising construct x construction path (incl. module directory / template directory reached through a symbolic link): RichTraceback's template frame",
+                 dict(positions=TB_POSITIONS, paths=TB_SOURCES), ("asserted",)))
     for j in jobs:
         driver.register(j[0], j[1], j[2])
+    goods = []
     for name, _h, _o, title, bounds, req in jobs:
         st, acc = driver.explore(name, time_limit=900)
         check.section(title, st, acc, bounds, tags_required=req)
         cands.extend(acc.candidates)
+        goods.extend(acc.goods)
+    return goods
